@@ -38,15 +38,14 @@ impl Epoch {
 fn has_gap_with(&self, other: &Epoch) -> (ret: bool)
     ensures ret == !(self.0 == other.0 || self.0 as int + 1 == other.0 as int || other.0 as int + 1 == self.0 as int)
 {
-        u64_abs_diff(self.0, other.0) > 1
+        self.0.abs_diff(other.0) > 1
     }
 // ---- end of extracted text ----
 }
 
-#[verifier::external_body]
-fn u64_abs_diff(a: u64, b: u64) -> (r: u64)
-    ensures r as int == (if a >= b { a - b } else { b - a })
-{ a.abs_diff(b) }
+/// std semantics of u64::abs_diff
+pub assume_specification[u64::abs_diff](a: u64, b: u64) -> (r: u64)
+    ensures r as int == (if a >= b { a - b } else { b - a });
 
 // ---- abstract entities -----------------------------------------------------------------------------------
 #[verifier::external_body] pub struct ProtocolParameters { _p: core::marker::PhantomData<u8> }
